@@ -70,9 +70,11 @@ def on_adjust(p, r, exc, acc):
 
 # ------------------------------------------------------------------ include arguments and context isolation
 def include_sources(f):
-    inc = "<%page args=\"x='dx', y='dy'\"/>x=${x} y=${y} self=${self.uri} parent=${context.get('parent', 'noparent') if True else ''} " \
+    yn = f.get("yname", "y")       # the second page argument may be called like a parameter of the runtime's own include helpers
+    inc = "<%page args=\"x='dx', YN='dy'\"/>x=${x} y=${YN} self=${self.uri} parent=${context.get('parent', 'noparent') if True else ''} " \
           "local=${local.uri}"
-    args = ", ".join("%s='a%s'" % (k, k) for k in ("x", "y") if f["arg_" + k])
+    inc = inc.replace("YN", yn)
+    args = ", ".join("%s='a%s'" % (yn if k == "y" else k, k) for k in ("x", "y") if f["arg_" + k])
     tag = '<%include file="' + f["uri"] + '"' + (' args="%s"' % args if args else "") + "/>"
     assign = "<% x = 'bx' %>" if f.get("body_assigns_x") else ""
     if f.get("include_in_def"):
@@ -86,7 +88,8 @@ def include_sources(f):
 def h_include(p):
     f = {"arg_x": bool(p.choose(2, "x_in_args")), "arg_y": bool(p.choose(2, "y_in_args")), "ctx_x": bool(p.choose(2, "x_in_context")),
          "ctx_y": bool(p.choose(2, "y_in_context")), "uri": ["inc", "/sub/inc"][p.choose(2, "uri_form")],
-         "include_in_def": bool(p.choose(2, "include_written_in_a_def")), "body_assigns_x": bool(p.choose(2, "body_assigns_x"))}
+         "include_in_def": bool(p.choose(2, "include_written_in_a_def")), "body_assigns_x": bool(p.choose(2, "body_assigns_x")),
+         "yname": ["y", "data", "uri", "callable_"][p.choose(4, "second_argument_name")]}
     lk = LK.TemplateLookup()
     for k, v in include_sources(f).items():
         lk.put_string(k, v)
@@ -94,7 +97,7 @@ def h_include(p):
     if f["ctx_x"]:
         data["x"] = "cx"
     if f["ctx_y"]:
-        data["y"] = "cy"
+        data[f["yname"]] = "cy"
     out = exc = None
     try:
         out = lk.get_template("/sub/main").render(**data)
@@ -311,7 +314,7 @@ else:
     elif "arg_x" in f:
         src, want, top, data = C07.include_sources(f), C07.ref_include(f), "/sub/main", {}
         if f["ctx_x"]: data["x"] = "cx"
-        if f["ctx_y"]: data["y"] = "cy"
+        if f["ctx_y"]: data[f.get("yname", "y")] = "cy"
     else:
         src, want, top = C07.ns_sources(f), C07.ref_ns(f), "/n/main"
         STRICT = f.get("strict", False)
